@@ -99,3 +99,113 @@ for _o in ["plain", "pad-expand"]:
     _mk_table_measure(2, _o, ("quick", "thorough"), 900)
 for _o in ["pad-collapse", "ratio-expand", "minwidth"]:
     _mk_table_measure(2, _o, ("thorough",), 1800)
+
+
+# --- composition: measurement vs rendering on the catalogue (C+S) --------------------------------------------------------
+from vf import catalogue as cat  # noqa: E402
+from vf.common import ref_width_concrete  # noqa: E402
+
+
+def _mk_sound(lo, hi, tiers, timeout, wmax):
+    @symx("C09-render-at-measure-w%d-trees%d-%d" % (wmax, lo, hi), tiers=tiers, timeout=timeout, kind="C+S",
+          functions=F_M + ["rich/console.py:Console.render", "<each tree's __rich_measure__ and __rich_console__>"],
+          bounds="catalogue trees %s x available width 0..%d (solver-enumerated, native): 0 <= minimum <= maximum <= width, and "
+                 "rendering at the reported maximum and at the reported minimum gives no line wider than that value whenever it is at "
+                 "or above the tree's structural minimum" % (cat.NAMES[lo:hi], wmax))
+    def h(e):
+        i = int(e.mk("tree", lo, hi - 1))
+        name, factory, smin = cat.TREES[i]
+        w = int(e.mk("width", 0, wmax))
+        c = cat.console()
+        m = Measurement.get(c, factory(), w)
+        if not (0 <= m.minimum <= m.maximum <= w):
+            return False
+        for at in (m.maximum, m.minimum):
+            if at >= smin and at >= 1:
+                if any(x > at for x in cat.widths(cat.render_lines(c, factory(), at))):
+                    return False
+        return True
+    return h
+
+
+_NT = len(cat.TREES)
+for _lo in range(0, _NT, 6):
+    _mk_sound(_lo, min(_NT, _lo + 6), ("quick",), 900, 60)
+    _mk_sound(_lo, min(_NT, _lo + 6), ("thorough",), 3000, 200)
+
+
+# --- Text: minimum = widest word, maximum = widest line (S, CrossHair on symbolic strings) ------------------------------------
+from rich.text import Text  # noqa: E402
+from vf.obl import xh  # noqa: E402
+from vf.common import over, ref_width, SIGMA  # noqa: E402
+
+_TSIG = SIGMA + "\n"
+
+
+def _mk_text_measure(n, tiers, timeout):
+    def pre(s: str) -> bool:
+        return len(s) == n and over(s, _TSIG)
+
+    @xh("C09-text-measure-len%d" % n, pre=pre, tiers=tiers, timeout=timeout, kind="S", stubs=["S1", "S2"],
+        functions=["rich/text.py:Text.__rich_measure__", "rich/cells.py:cell_len"],
+        bounds="all strings of length %d over {a, b, space, U+4E2D (2 cells), U+0301 (0 cells), newline}: minimum == width of the "
+               "widest word, maximum == width of the widest line (reference widths)" % n,
+        outside="tabs; longer strings")
+    def h(s: str) -> bool:
+        m = Text(s).__rich_measure__(None, 1000)
+        widest_word = 0
+        widest_line = 0
+        word = 0
+        line = 0
+        for ch in s:
+            if ch == "\n":
+                widest_line = max(widest_line, line)
+                line = 0
+            else:
+                line += 2 if ch == "中" else (0 if ch == "́" else 1)
+            if ch == " " or ch == "\n":
+                widest_word = max(widest_word, word)
+                word = 0
+            else:
+                word += 2 if ch == "中" else (0 if ch == "́" else 1)
+        widest_line = max(widest_line, line)
+        widest_word = max(widest_word, word)
+        if s.strip() == "":
+            return m.minimum == m.maximum
+        return m.minimum == widest_word and m.maximum == widest_line
+    return h
+
+
+for _n, _t, _to in [(1, ("quick", "thorough"), 120), (2, ("quick", "thorough"), 300), (3, ("quick", "thorough"), 900),
+                    (4, ("thorough",), 2400), (5, ("thorough",), 3400)]:
+    _mk_text_measure(_n, _t, _to)
+
+
+_WORDS = ["hello", "你好世", "ab", "wide", "你好世界", "mix", "á", "", "x y", "a\nbb"]
+
+
+@symx("C09-text-measure-words", timeout=900, kind="P", functions=["rich/text.py:Text.__rich_measure__"],
+      bounds="texts made of three catalogue words (narrow, double-width, combining) joined by solver-chosen separators from "
+             "{space, newline, two spaces}: minimum == widest word, maximum == widest line; rendering at the maximum never wraps")
+def c09_words(e):
+    ws = [_WORDS[int(e.mk("w%d" % i, 0, len(_WORDS) - 1))] for i in range(3)]
+    seps = [[" ", "\n", "  "][int(e.mk("s%d" % i, 0, 2))] for i in range(2)]
+    s = ws[0] + seps[0] + ws[1] + seps[1] + ws[2]
+    c = cat.console()
+    m = Measurement.get(c, Text(s), 200)
+    words = s.split()
+    lines = s.splitlines()
+    if not s.strip():
+        return m.minimum == m.maximum
+    want_min = max(ref_width_concrete(x) for x in words)
+    want_max = max(ref_width_concrete(x) for x in lines)
+    if (m.minimum, m.maximum) != (want_min, want_max):
+        return False
+    # never wrapped: the rendered lines are the text's own lines (trailing blank lines aside)
+    rendered = [l.rstrip() for l in cat.render_lines(c, Text(s), m.maximum)]
+    want = [l.rstrip() for l in lines]
+    while rendered and not rendered[-1]:
+        rendered.pop()
+    while want and not want[-1]:
+        want.pop()
+    return rendered == want
